@@ -23,6 +23,9 @@ def handle_cell(cell: Cell, titles: Dict[str, int]):
 
     if isinstance(cell.row, str):
         if cell.row:
+            if len(cell.row) > 9:
+                # no worksheet has a row numbered with ten digits or more (and int() refuses texts of thousands of digits)
+                raise E2PyclCellException(f'There is no row `{cell.row[:12]}...`')
             if int(cell.row) < 1:
                 raise E2PyclCellException(f'There is no row `{cell.row}`, rows are numbered from 1')
             cell.row = int(cell.row) - 1
